@@ -114,3 +114,61 @@ def run_cases(unit, prop, repo, scratch, tier, cases, function, what, bound):
                                                cmd='capy run %s.capy --mod-dir <tree>' % bad['program'],
                                                note='failing program found by running the real compiler built from the tree')))
     return r
+
+
+def build_program(exe, repo, name, text, workdir, timeout=300):
+    """compile one program with `capy build`; -> path of the binary or (None, output)"""
+    path = os.path.join(workdir, name + '.capy')
+    with open(path, 'w') as f:
+        f.write(text)
+    p = subprocess.run([exe, 'build', name + '.capy', '--mod-dir', os.path.abspath(repo)], cwd=workdir, capture_output=True, text=True, timeout=timeout)
+    binp = os.path.join(workdir, 'out', name)
+    if not os.path.exists(binp):
+        return None, (p.stdout + p.stderr)[-600:]
+    return binp, None
+
+
+def run_arg_cases(unit, prop, repo, scratch, tier, name, text, runs, function, what, bound):
+    """One program compiled once and run once per entry of `runs` = [(n_extra_args, judge, label)];
+    judge(exit_code, lines) -> None when the run is what the property demands, else a text."""
+    t0 = time.time()
+    r = dict(unit=unit.name, kind='bounded', status='ok', undecided=[], failures=[], per_fn=[], samples=[],
+             obligations=0, discharged=0, assumption_texts=[], bounded=[], wall_s=0.0)
+    exe, why = build_capy(repo, scratch)
+    if exe is None:
+        r['status'] = 'undecided'
+        r['undecided'].append(why)
+        return r
+    d = tempfile.mkdtemp(prefix='capy-exec.')
+    try:
+        binp, why = build_program(exe, repo, name, text, d)
+        if binp is None:
+            r['status'] = 'undecided'
+            r['undecided'].append('program %s is not accepted: %s' % (name, why))
+            return r
+        bad = None
+        for nargs, judge, label in runs:
+            try:
+                p = subprocess.run([binp] + ['x'] * nargs, cwd=d, capture_output=True, text=True, timeout=60)
+                code, lines = p.returncode, [ln for ln in (p.stdout + p.stderr).splitlines() if ln.strip()]
+            except subprocess.TimeoutExpired:
+                code, lines = -999, ['<timeout>']
+            verdict = judge(code, lines)
+            if verdict is not None and bad is None:
+                bad = dict(label=label, nargs=nargs, verdict=verdict, code=code, lines=lines[:12])
+    finally:
+        shutil.rmtree(d, ignore_errors=True)
+    summ = dict(runs=len(runs))
+    r['checker_cmd'] = 'cargo build --offline -p capy (tree %s) ; capy build %s.capy ; the binary run %d times' % (repo, name, len(runs))
+    r['bounded'].append(dict(unit=unit.name, function=function, bound=bound, summary=summ, backend='the real compiler built from the tree, one generated program executed once per case'))
+    r['samples'].append(dict(bounded_check=function, summary=summ))
+    r['wall_s'] = time.time() - t0
+    if bad:
+        r['status'] = 'fail'
+        r['failures'].append(dict(unit=unit.name, function=function, kind='bounded-check', clause=what, site=None,
+                                  id='%s::%s::bounded-check' % (unit.name, function), primary=None, secondary=[],
+                                  message='bounded check failed', rendered='%s: %s (exit %s, output %r)' % (bad['label'], bad['verdict'], bad['code'], bad['lines']),
+                                  witness=dict(kind='concrete-input', input=bad['label'], program=text, args=bad['nargs'], exit_code=bad['code'], output=bad['lines'],
+                                               cmd='capy build %s.capy --mod-dir <tree> ; out/%s %s' % (name, name, ' '.join(['x'] * bad['nargs'])),
+                                               note='failing run found by executing the program compiled by the real compiler')))
+    return r
